@@ -359,7 +359,7 @@ func c18(p *P) {
 				if (fnm != "chainsWanted" && fnm != "chainsDiscovered") || typeBase(fa.X.Type()) != "PubSubChainExchange" {
 					continue
 				}
-				r.Check(heldAt(f, in, "&$0.mu", true), "C18.R5", fmt.Sprintf("%s: %s accessed under mu", funcName(f), fnm), p.c.InstrPos(in), "Lock dominates the access, no Unlock in between", "instance map accessed without holding the mutex")
+				r.Check(p.heldAtOrByCallers(f, in, "&$0.mu", true, 0), "C18.R5", fmt.Sprintf("%s: %s accessed under mu", funcName(f), fnm), p.c.InstrPos(in), "Lock dominates the access, no Unlock in between", "instance map accessed without holding the mutex")
 			}
 		}
 	}
